@@ -81,6 +81,7 @@ func (s *State) Assume(t Term) {
 func (s *State) Branch(t Term) { s.reach = And(s.reach, t) }
 
 type Frame struct {
+	curBlock *ssa.BasicBlock // block being executed (call-site clauses use it to find the enclosing range loop)
 	rangeMap map[*ssa.Range]string // map value term at the start of a range over a string-keyed map
 	vc       *VC
 	fn       *ssa.Function
@@ -408,6 +409,25 @@ func (fr *Frame) execRegion(entry *ssa.BasicBlock, region map[*ssa.BasicBlock]bo
 			cur = cur.Clone()
 		}
 		fr.bindPhis(b, sts, in, cur)
+		// `loop k exit` clauses: a cut point at the block behind loop k, where its normal exit and its
+		// `break` paths join — proved there, then assumed
+		for _, li := range fr.loopsDoneAt(b) {
+			for _, xc := range fr.invariantsFor(li) {
+				if !xc.Exit {
+					continue
+				}
+				if len(sts) == 1 {
+					cur = cur.Clone()
+				}
+				g := fr.evalClause(xc, cur, nil, li)
+				var pos token.Pos
+				if len(b.Instrs) > 0 {
+					pos = b.Instrs[0].Pos()
+				}
+				vc.Oblige("loop-exit", fmt.Sprintf("loop%d.%s", li.ordinal, xc.Label), pos, cur, g, xc.Src)
+				cur.Assume(g)
+			}
+		}
 		if li := fr.loopOf[b]; li != nil && b != entry {
 			// inner loop: cut it
 			exits := fr.execLoop(li, cur)
@@ -437,7 +457,12 @@ func (fr *Frame) bindPhis(b *ssa.BasicBlock, sts []*State, in map[*ssa.BasicBloc
 func (fr *Frame) execLoop(li *loopInfo, st *State) []edge {
 	vc := fr.vc
 	h := li.header
-	invs := fr.invariantsFor(li)
+	var invs []*Clause
+	for _, c := range fr.invariantsFor(li) {
+		if !c.Exit {
+			invs = append(invs, c)
+		}
+	}
 	// 1. invariants hold on entry
 	for _, inv := range invs {
 		g := fr.evalClause(inv, st, nil, li)
@@ -503,6 +528,28 @@ func (fr *Frame) execLoop(li *loopInfo, st *State) []edge {
 			hs.Assume(And(Le(IntLit(-1), ri), Lt(ri, n)))
 		}
 	}
+	// `loop k keeps H_T`: the arrays of H_T that existed at loop entry are unchanged (assumed here, proved below)
+	type kept struct {
+		heap     string
+		old, lim Term
+	}
+	var keeps []kept
+	if fr.parent == nil && vc.ct != nil && fr.fn == vc.fn {
+		for _, k := range vc.ct.LoopKeeps[li.ordinal] {
+			old, had := st.heaps[k]
+			if !had {
+				if e, ok := vc.entryHeaps[k]; ok {
+					old, had = e, true
+				}
+			}
+			if !had || !modHeaps[k] {
+				continue
+			}
+			kp := kept{k, old, vc.allocTerm(st)}
+			keeps = append(keeps, kp)
+			hs.Assume(T(SBool, "(forall ((a!k Int)) (! (=> (< a!k %s) (= (select %s a!k) (select %s a!k))) :pattern ((select %s a!k))))", kp.lim.S, hs.heaps[k].S, old.S, hs.heaps[k].S))
+		}
+	}
 	for _, inv := range invs {
 		hs.Assume(fr.evalClause(inv, hs, nil, li))
 	}
@@ -516,11 +563,33 @@ func (fr *Frame) execLoop(li *loopInfo, st *State) []edge {
 				g := fr.evalClause(inv, e.st, nil, li)
 				vc.Oblige("inv-step", fmt.Sprintf("loop%d.%s", li.ordinal, inv.Label), lastPos(e.from), e.st, g, inv.Src)
 			}
+			for _, kp := range keeps {
+				cur, ok := e.st.heaps[kp.heap]
+				if !ok {
+					continue
+				}
+				g := T(SBool, "(forall ((a!k Int)) (=> (< a!k %s) (= (select %s a!k) (select %s a!k))))", kp.lim.S, cur.S, kp.old.S)
+				vc.Oblige("inv-step", fmt.Sprintf("loop%d.keeps.%s", li.ordinal, kp.heap), lastPos(e.from), e.st, g, "loop keeps "+kp.heap)
+			}
 			continue
 		}
 		exits = append(exits, e)
 	}
 	return exits
+}
+
+// loopsDoneAt: the loops whose done block is b (the successor of the loop header outside the loop;
+// go/ssa sends `break` there as well).
+func (fr *Frame) loopsDoneAt(b *ssa.BasicBlock) []*loopInfo {
+	var out []*loopInfo
+	for h, li := range fr.loopOf {
+		for _, s := range h.Succs {
+			if s == b && !li.blocks[s] {
+				out = append(out, li)
+			}
+		}
+	}
+	return out
 }
 
 func lastPos(b *ssa.BasicBlock) token.Pos {
@@ -548,6 +617,7 @@ func (fr *Frame) invariantsFor(li *loopInfo) []*Clause {
 
 // execBlock runs the instructions of b; deliver is called for each outgoing edge.
 func (fr *Frame) execBlock(b *ssa.BasicBlock, st *State, deliver func(from, to *ssa.BasicBlock, s *State)) {
+	fr.curBlock = b
 	for _, ins := range b.Instrs {
 		switch x := ins.(type) {
 		case *ssa.If:
